@@ -116,12 +116,14 @@ type C09ChainMonitor struct {
 	tbr     math.Int
 	escrow  math.Int
 	queries map[string]oracletypes.QueryMeta
+	credits map[string]math.LegacyDec // SelectorTips at EndBlock entry
 }
 
 func NewC09ChainMonitor(st *Stats) *C09ChainMonitor { return &C09ChainMonitor{st: st} }
 func (m *C09ChainMonitor) Name() string             { return "c09chain" }
 
 func (m *C09ChainMonitor) EndBlockEntry(c *Chain, ctx sdk.Context) {
+	m.credits, _ = selectorTips(c, ctx)
 	m.tbr = modBal(c, ctx, minttypes.TimeBasedRewards)
 	m.escrow = modBal(c, ctx, reportertypes.TipsEscrowPool)
 	_, m.queries = allQueries(c, ctx)
@@ -173,5 +175,27 @@ func (m *C09ChainMonitor) EndBlockExit(c *Chain, ctx sdk.Context, err error) {
 	}
 	if !in.Equal(tips.Add(paid)) {
 		c.Violate("C09", "c09chain", "tips-escrow-inflow-not-tips-plus-time-based-reward", map[string]interface{}{"inflow": in.String(), "tips": tips.String(), "tbr": paid.String()})
+	}
+	// "each selector's credits sum exactly to the reward": what the oracle EndBlocker credited in this block is what it
+	// moved into the escrow pool (18-decimal credits: one ulp per credit written)
+	after, _ := selectorTips(c, ctx)
+	sum := math.LegacyZeroDec()
+	n := int64(0)
+	for k, v := range after {
+		old, ok := m.credits[k]
+		if !ok {
+			old = math.LegacyZeroDec()
+		}
+		if !v.Equal(old) {
+			sum = sum.Add(v.Sub(old))
+			n++
+		}
+	}
+	if n > 0 || in.IsPositive() {
+		m.st.Count("c09.block-credits.evals")
+		diff := sum.Sub(math.LegacyNewDecFromInt(in)).Abs()
+		if diff.GT(math.LegacyNewDecWithPrec(n+int64(anyAgg)+2, 18)) {
+			c.Violate("C09", "c09chain", "credits-of-the-block-do-not-sum-to-the-rewards-paid", map[string]interface{}{"credited": sum.String(), "moved_into_escrow": in.String(), "credits_written": n})
+		}
 	}
 }
